@@ -43,7 +43,20 @@ pub trait MemTable: Send + Sync {
 /// A memtable that is backed by a skiplist.
 pub(crate) struct SkipListMemTable {
     /// The actual skip list backing the memtable.
-    store: Arc<ConcurrentSkipList<InternalKey, Vec<u8>>>,
+    store: Arc<GuardedSkipList>,
+}
+
+/**
+The skip list together with the lock that keeps readers out while an insertion links a new node.
+
+The skip list links a new node into the upper levels before its lower next pointers are set, so a
+reader that walks the list during an insertion can step onto the half-linked node, find no
+successors below it and conclude that the list ends there. Nodes are never removed or changed once
+they are linked, so the lock only needs to be held while pointers are being followed.
+*/
+struct GuardedSkipList {
+    list: ConcurrentSkipList<InternalKey, Vec<u8>>,
+    insertion_lock: parking_lot::RwLock<()>,
 }
 
 /// Public methods
@@ -51,14 +64,17 @@ impl SkipListMemTable {
     /// Create a new instance of the [`SkipListMemTable`].
     pub fn new() -> Self {
         Self {
-            store: Arc::new(ConcurrentSkipList::new(None)),
+            store: Arc::new(GuardedSkipList {
+                list: ConcurrentSkipList::new(None),
+                insertion_lock: parking_lot::RwLock::new(()),
+            }),
         }
     }
 }
 
 impl MemTable for SkipListMemTable {
     fn approximate_memory_usage(&self) -> usize {
-        self.store.get_approx_mem_usage()
+        self.store.list.get_approx_mem_usage()
     }
 
     fn insert(&self, key: InternalKey, value: Vec<u8>) {
@@ -66,7 +82,8 @@ impl MemTable for SkipListMemTable {
         SAFETY:
         RainDB enforces that there is only a single writer adding to the memtable at a time.
         */
-        unsafe { self.store.insert_with_size(key, value) }
+        let _insertion_guard = self.store.insertion_lock.write();
+        unsafe { self.store.list.insert_with_size(key, value) }
     }
 
     fn get(&self, key: &InternalKey) -> RainDBResult<Option<&Vec<u8>>> {
@@ -82,7 +99,10 @@ impl MemTable for SkipListMemTable {
             let (current_key, _current_val) = iter.current().unwrap();
             if current_key.get_user_key() == key.get_user_key() {
                 match current_key.get_operation() {
-                    crate::Operation::Put => return Ok(self.store.get(current_key)),
+                    crate::Operation::Put => {
+                        let _read_guard = self.store.insertion_lock.read();
+                        return Ok(self.store.list.get(current_key));
+                    }
                     crate::Operation::Delete => return Ok(None),
                 }
             }
@@ -94,15 +114,18 @@ impl MemTable for SkipListMemTable {
     fn iter(&self) -> Box<dyn RainDbIterator<Key = InternalKey, Error = RainDBError>> {
         Box::new(SkipListMemTableIter {
             store: Arc::clone(&self.store),
-            current_entry: self.store.first_node().map(|node| {
-                let (key, value) = node.get_entry();
-                (key.clone(), value.clone())
-            }),
+            current_entry: {
+                let _read_guard = self.store.insertion_lock.read();
+                self.store.list.first_node().map(|node| {
+                    let (key, value) = node.get_entry();
+                    (key.clone(), value.clone())
+                })
+            },
         })
     }
 
     fn len(&self) -> usize {
-        self.store.len()
+        self.store.list.len()
     }
 }
 
@@ -122,7 +145,7 @@ correct. Why were the invariants so easy to maintain in C++?
 */
 struct SkipListMemTableIter {
     /// A reference to the skip list backing the memtable.
-    store: Arc<ConcurrentSkipList<InternalKey, Vec<u8>>>,
+    store: Arc<GuardedSkipList>,
 
     /// The key-value pair that was found last.
     current_entry: Option<(InternalKey, Vec<u8>)>,
@@ -146,8 +169,10 @@ impl RainDbIterator for SkipListMemTableIter {
     }
 
     fn seek(&mut self, target: &Self::Key) -> Result<(), Self::Error> {
+        let _read_guard = self.store.insertion_lock.read();
         self.current_entry = self
             .store
+            .list
             .find_greater_or_equal_node(target)
             .map(SkipListMemTableIter::owned_entry_from_node);
 
@@ -155,8 +180,10 @@ impl RainDbIterator for SkipListMemTableIter {
     }
 
     fn seek_to_first(&mut self) -> Result<(), Self::Error> {
+        let _read_guard = self.store.insertion_lock.read();
         self.current_entry = self
             .store
+            .list
             .first_node()
             .map(SkipListMemTableIter::owned_entry_from_node);
 
@@ -164,8 +191,10 @@ impl RainDbIterator for SkipListMemTableIter {
     }
 
     fn seek_to_last(&mut self) -> Result<(), Self::Error> {
+        let _read_guard = self.store.insertion_lock.read();
         self.current_entry = self
             .store
+            .list
             .last_node()
             .map(SkipListMemTableIter::owned_entry_from_node);
 
@@ -178,7 +207,9 @@ impl RainDbIterator for SkipListMemTableIter {
         }
 
         self.current_entry = self.current_entry.take().and_then(|(key, _value)| {
+            let _read_guard = self.store.insertion_lock.read();
             self.store
+                .list
                 .find_greater_or_equal_node(&key)
                 .and_then(|node| node.next())
                 .map(SkipListMemTableIter::owned_entry_from_node)
@@ -201,8 +232,10 @@ impl RainDbIterator for SkipListMemTableIter {
         }
 
         let (curr_key, _) = self.current_entry.take().unwrap();
+        let _read_guard = self.store.insertion_lock.read();
         self.current_entry = self
             .store
+            .list
             .find_less_than_node(&curr_key)
             .map(SkipListMemTableIter::owned_entry_from_node);
         self.current()
